@@ -1,9 +1,11 @@
 Require Extraction.
 Require Import ExtrOcamlBasic.
 From Coq Require Import NArith ZArith List.
-From CppcmsV Require Import C12.Defs C12.ResDefs C12.MoreDefs.
+From CppcmsV Require Import C12.Defs C12.ResDefs C12.MoreDefs C12.FaultDefs.
 Definition keep_types : (N * Z * nat) := (0%N, 0%Z, 0%nat).
 Extraction "c12m.ml" keep_types ct_boundary make_boundary init_state drive feed req_loop request_multipart
   parse_urlencoded f_size has_mime f_name f_filename f_mime f_rdata cur rfiles ready st pos media_type
   deliver_post deliver_files encode mrun containsb mklim request_service
-  lifecycle l_start l_app_end l_destroyed l_released get_query request_plain request_service_ab.
+  lifecycle l_start l_app_end l_destroyed l_released get_query request_plain request_service_ab
+  write_entries_q destroy_all_q fo_size n_open n_disk o_inmem
+  part_through_filter post_value handed.
